@@ -1,4 +1,5 @@
 mod util;
+mod shrink;
 mod pan;
 mod corpus;
 mod gen;
@@ -8,6 +9,8 @@ mod jobs;
 #[global_allocator]
 static GLOBAL: worker::CapAlloc = worker::CapAlloc;
 mod c02;
+mod c13;
+mod c14;
 mod c16;
 mod c17;
 mod rend;
@@ -21,6 +24,14 @@ fn main() {
     if args.len() < 3 {
         eprintln!("usage: vh corr|search <Cxx> [tier]");
         std::process::exit(2);
+    }
+    if args[1] == "c14dbg" {
+        let svg = std::fs::read_to_string(&args[2]).unwrap();
+        let f: Vec<f32> = args[3..7].iter().map(|x| x.parse().unwrap()).collect();
+        let ts = resvg::tiny_skia::Transform::from_scale(f[0], f[1]).post_translate(f[2], f[3]);
+        let extra: u32 = args.get(7).and_then(|x| x.parse().ok()).unwrap_or(0);
+        c14::debug(&svg, ts, extra);
+        return;
     }
     let tier = args.get(3).map(|s| s.as_str()).unwrap_or("quick").to_string();
     let seed = util::seed_from_env();
@@ -40,6 +51,24 @@ fn main() {
         ("search", "C02") => {
             let mut s = util::Search::new();
             c02::search(&tier, seed, &mut s);
+            s.finish();
+        }
+        ("corr", "C13") => {
+            let mut c = util::Corr::new();
+            c13::corr(&tier, seed, &mut c);
+        }
+        ("search", "C13") => {
+            let mut s = util::Search::new();
+            c13::search(&tier, seed, &mut s);
+            s.finish();
+        }
+        ("corr", "C14") => {
+            let mut c = util::Corr::new();
+            c14::corr(&tier, seed, &mut c);
+        }
+        ("search", "C14") => {
+            let mut s = util::Search::new();
+            c14::search(&tier, seed, &mut s);
             s.finish();
         }
         ("search", "C17") => {
